@@ -341,6 +341,10 @@ def e_const(c):
             # keep the request satisfiable: differ from every zero index in at least one position
             if all(any(a != b for a, b in zip(z, cand)) for z in rows):
                 i_nz = cand
+            elif c.rng.random() < 0.5:
+                i_nz = cand            # a request that cannot be satisfied (rejected today): a rejected call must leave its arguments alone as well
+        if i_nz is None and c.rng.random() < 0.1:
+            i_nz = list(rows[int(c.rng.integers(0, len(rows)))])
         if c.rng.random() < 0.4:
             # numpy-style indices counted from the end, passed as int64 arrays
             k = int(c.rng.integers(0, len(c.n)))
@@ -779,7 +783,8 @@ def e_func_basis(c):
 @entry()
 def e_func_diff_matrix(c):
     kw = {'m': int(c.rng.integers(1, 4)), 'kind': _pick(c, ['cheb', 'sin'])}
-    return Call('func_diff_matrix', teneva.func_diff_matrix, [-1.0, 2.0, int(c.rng.integers(3, 7))], kw, may_fail=True)
+    a, b = _pick(c, [(-1.0, 2.0), (-1.0, 2.0), (-1.0, 1.0), (0.0, 1.0)])
+    return Call('func_diff_matrix', teneva.func_diff_matrix, [a, b, int(c.rng.integers(3, 7))], kw, may_fail=True)
 
 
 @entry()
@@ -888,6 +893,10 @@ def e_func_sum_full(c):
     A, nn, d = _dense_eq(c)
     if c.rng.random() < 0.25:
         return Call('func_sum_full', teneva.func_sum_full, [A, -1.0, 2.0], may_fail=True)
+    if c.rng.random() < 0.2:
+        # bounds that are symmetric only up to round-off
+        return Call('func_sum_full', teneva.func_sum_full, [A, _pick(c, [-(0.1 + 0.2), c.own(-(0.1 + 0.2) * np.ones(d)), c.own([-(0.1 + 0.2)] * d)]),
+                                                            _pick(c, [0.3, c.own(0.3 * np.ones(d)), c.own([0.3] * d)])], may_fail=True)
     return Call('func_sum_full', teneva.func_sum_full, [A, _pick(c, [-2.0, c.own([-2.0] * d), c.own(-2.0 * np.ones(d))]), _pick(c, [2.0, c.own([2.0] * d), c.own(2.0 * np.ones(d))])])
 
 
@@ -1206,7 +1215,9 @@ def e_cross(c):
         def cb(Y, info, opts):
             c.monitor('cross.cb')
             sw['s'] += 1
+            sw['seen'].append(sorted((str(k), repr(v)) for k, v in info.items() if k != 't'))      # what a watching caller reads in the progress record
             return True if cb_at == sw['s'] else None
+        sw['seen'] = []
         kw['cb'] = cb
     if c.rng.random() < 0.15:
         kw['log'] = True
@@ -1215,7 +1226,9 @@ def e_cross(c):
         st['calls'] = 0
         if 'cb' in kw:
             sw['s'] = 0
-    return Call('cross', teneva.cross, [f, Y0], kw, mutable=mutable, defaults_dict=dd, reset=reset)
+            del sw['seen'][:]
+    post = (lambda res: [res, list(sw['seen'])]) if 'cb' in kw else None
+    return Call('cross', teneva.cross, [f, Y0], kw, mutable=mutable, defaults_dict=dd, reset=reset, post=post)
 
 
 @entry(weight=2)
@@ -1292,7 +1305,9 @@ def e_als(c):
         def cb(Y, info, opts):
             c.monitor('als.cb')
             sw['s'] += 1
+            sw['seen'].append(sorted((str(k), repr(v)) for k, v in info.items() if k != 't'))      # what a watching caller reads in the progress record
             return True if cb_at == sw['s'] else None
+        sw['seen'] = []
         kw['cb'] = cb
     if c.rng.random() < 0.1:
         kw['log'] = True
@@ -1300,7 +1315,9 @@ def e_als(c):
     def reset():
         if 'cb' in kw:
             sw['s'] = 0
-    return Call('als', teneva.als, [I, y, Y0], kw, mutable=mutable, defaults_dict=dd, reset=reset)
+            del sw['seen'][:]
+    post = (lambda res: [res, list(sw['seen'])]) if 'cb' in kw else None
+    return Call('als', teneva.als, [I, y, Y0], kw, mutable=mutable, defaults_dict=dd, reset=reset, post=post)
 
 
 @entry(name='als_swap_default_info')
